@@ -99,7 +99,10 @@ def handler : Handler := fun op j =>
   | "point" => do
     let pol ← policy? (← field? j "policy")
     let accel ← fBool? j "accel"
-    some (ok (jS (if accel && !pol.isBB then "v" else "x")))
+    -- the model's own choice (`apgmPoint` / `pgmStep`), evaluated on a state whose `x` and `v` are distinguishable
+    let probe : PGMState FV Float := { PGMState.init #[0.0] 1.0 0.0 with v := #[1.0] }
+    let pt := if accel then apgmPoint pol probe else probe.x
+    some (ok (jS (if pt[0]! < 0.5 then "x" else "v")))
   | "run" => do
     let Q ← fFloatss? j "Q"
     let b ← fFloats? j "b"
